@@ -192,6 +192,8 @@ class Translator:
         self.defs = []          # [(coq name, stmt, key)]
         self.done = {}          # key -> coq name
         self.stack = []
+        self._line = None       # first line of the statement being translated
+        self.opaque = {}        # key -> lines of statements that contain an opaque (may-raise) call
 
     # -- plumbing
     def mod(self, rel):
@@ -319,6 +321,13 @@ class Translator:
         return False
 
     def stmt(self, key, st, gen):
+        prev, self._line = self._line, st.lineno
+        try:
+            return self._stmt(key, st, gen)
+        finally:
+            self._line = prev
+
+    def _stmt(self, key, st, gen):
         E = lambda e: self.expr(key, e)
         if isinstance(st, ast.Expr) and isinstance(st.value, ast.Yield):
             if gen is None:
@@ -441,6 +450,12 @@ class Translator:
         return Seq(*[self.expr(key, ch) for ch in ast.iter_child_nodes(e) if isinstance(ch, ast.expr)])
 
     def call(self, key, e):
+        r = self._call(key, e)
+        if 'Call' in repr(r) and self._line is not None:
+            self.opaque.setdefault(key, set()).add(self._line)
+        return r
+
+    def _call(self, key, e):
         fname = ast.unparse(e.func)
         if fname in MANAGER_PUSH:
             tag = PUSH_TAGS.get(key)
@@ -532,4 +547,5 @@ def translate(src):
     for name in sorted(P):
         lines.append('Definition %s : stmt := %s.' % (name, coq(P[name])))
     return {'coq': '\n'.join(lines) + '\n', 'skeletons': skel, 'problems': tr.problems,
+            'opaque_lines': {k: sorted(v) for k, v in tr.opaque.items()},
             'programs': {n: pretty(P[n]) for n in P}}
